@@ -79,9 +79,9 @@ CLAIMED["C17"] = (
     "DESIGN.md §4 C17")
 
 CLAIMED["C11"] = (
-    "solver-driven case split over traces generated from column types (validity by construction) on the real alignment / CIGAR / FASTA code and the compiled align_multiple, against column-by-column recomputation and an independently built CIGAR text",
-    "Bounded model checking (E-class: the z3 variables select column types, clip lengths, offsets, writer options and input sequences; every combination within the bound is a path). Every trace of up to 4 (5) columns over 2 sequences and 3 (4) over 3 sequences through gapped strings, code/symbol matrices, slicing, gap removal, terminal-gap detection, identity and score helpers; every pairwise trace x clipping x offset x all 16 CIGAR writer option combinations through write/read; FASTA alignment round trip with several gap characters; align_multiple on all tuples of an 8-sequence menu.",
-    "Trusted: numpy, the recomputation oracles in obligations/sx_c11.py, z3. Everything under check is executed concretely on each path (class E): no part of C11's code is reasoned about symbolically - the property is decided by exhaustive solver-driven enumeration within the bound. Outside: traces longer than 5 columns, multiple.pyx internals. Known finding: degenerate distance in align_multiple.",
+    "bounded symbolic execution of the alignment text layer (cigar.py text codec over symbolic repeat counts and symbolic CIGAR text, Alignment.trace_from_strings/_gapped_str over symbolic gapped strings; real modules loaded through the SX rewrite, z3) plus solver-driven case split over traces on the real alignment / CIGAR / FASTA code and the compiled align_multiple",
+    "Bounded model checking. Class S (SX engine): _cigar_from_op_tuples -> _op_tuples_from_cigar with symbolic counts 0..9999 (decimal rendering/parsing of symbolic integers) and every operation code; _op_tuples_from_cigar on every well-formed text of length <= 3 (4) over symbolic characters; trace_from_strings on EVERY gapped string set of 2x3..4(5) and 3x3(4) symbolic characters and _gapped_str as its inverse. Class E: every trace of up to 4 (5) columns over 2 sequences and 3 (4) over 3 sequences through gapped strings, code/symbol matrices, slicing, gap removal, terminal-gap detection, identity and score helpers; every pairwise trace x clipping x offset x all 16 CIGAR writer option combinations through write/read; FASTA alignment round trip with several gap characters; align_multiple on all tuples of an 8-sequence menu.",
+    "Trusted: numpy, the recomputation oracles in obligations/sx_c11.py, the list-backed numpy shim of the S obligations, z3. The numpy-vectorised parts (read_alignment_from_cigar / write_alignment_to_cigar proper, _aggregate_consecutive, _find_clipped_bases, the helper functions of alignment.py) and multiple.pyx are executed concretely per path (class E only). Malformed CIGAR text is outside the property. Outside: traces longer than 5 columns, multiple.pyx internals. Known finding: degenerate distance in align_multiple.",
     "DESIGN.md §4 C11")
 
 CLAIMED["C04"] = (
